@@ -37,7 +37,7 @@ META = dict(
          "values = collected flags with NaN where not evaluated; axis columns iff write_axes, data columns iff "
          "write_data; roll-up column = reference aggregate of all test results. + cf_safe_name on every string of "
          "length 1..3 (thorough 4) over 9 characters. non-trivial = a filter or a window is present, or an unsafe id",
-    bounds={"quick": {"rows": 4, "streams": 2, "filter_items": 2}, "thorough": {"rows": 5, "streams": 2, "filter_items": 2}},
+    bounds={"quick": {"rows": 4, "streams": 2, "filter_items": 2}, "thorough": {"rows": 5, "streams": 3, "filter_items": 2}},
     not_judged=["frames with no result column at all (shape)", "stream ids that sanitise to the same name",
                 "which axis columns appear for a stream that lacks the axis", "the roll-up column under include/exclude filters"],
     assumptions=[],
@@ -60,7 +60,7 @@ def build_store(case):
     cols = {"time": alpha.dt64(tab["time"]), "z": np.array(tab["z"]), "lat": np.array(tab["lat"]), "lon": np.array(tab["lon"])}
     srcs = {}
     for k, sid in enumerate(case["streams"]):
-        srcs[sid] = np.array(S.V[:n] if k == 0 else S.W[:n], dtype="float64")
+        srcs[sid] = np.array((S.V, S.W, S.Z)[k % 3][:n], dtype="float64")
         cols[sid] = srcs[sid]
     df = pd.DataFrame(cols)
     mods = {}
@@ -254,6 +254,8 @@ def tasks(tier):
     ts = []
     n = 4 if tier == "quick" else 5
     sets = [[s] for s in IDS] + [list(p) for p in itertools.combinations(IDS, 2)]
+    if tier == "thorough":
+        sets += [list(p) for p in itertools.combinations(IDS, 3)]
     for ss in sets:
         for tests in (["gross_range_test"], ["spike_test"], ["gross_range_test", "spike_test"], ["valid_range_test", "gross_range_test"]):
             ts.append(("store", n, ss, tests))
